@@ -43,3 +43,4 @@ def regenerate():
 if __name__ == "__main__":
     for p in regenerate():
         print("PROBLEM", p)
+import translate_c11
